@@ -9,7 +9,7 @@ git -C /repo apply "$patch" || { echo "patch does not apply"; exit 2; }
 trap 'git -C /repo checkout -- . ; git -C /repo clean -fdq' EXIT
 export VERIF_OUTDIR=${VERIF_OUTDIR:-/var/tmp/mutant-out}; mkdir -p $VERIF_OUTDIR
 for p in "$@"; do
-  out=$(./bin/check -p $p -budget $budget -seed ${MUT_SEED:-7} 2>&1)
+  out=$(./bin/check -p $p -budget $budget -seed ${MUT_SEED:-7} ${MUT_SHRINK:--noshrink} 2>&1)
   rc=$?
   v=$(echo "$out" | grep -c "^VIOLATION")
   first=$(echo "$out" | grep "^violation \[" | head -2 | cut -c1-260 | tr '\n' ' ')
